@@ -9,7 +9,8 @@ import Mathlib.Tactic.Linarith
 namespace Pepit
 
 /-- the pristine evaluation state of a freshly built model: no solve yet, nothing cached -/
-def EvalSt.Unsolved (s : EvalSt) : Prop := s.sols = #[] ∧ s.exVal = [] ∧ s.consVal = [] ∧ s.consDual = [] ∧ s.ptEpoch = []
+def EvalSt.Unsolved (s : EvalSt) : Prop :=
+  s.sols = #[] ∧ s.exVal = [] ∧ s.consVal = [] ∧ s.consDual = [] ∧ s.ptEpoch = [] ∧ s.psdDual = []
 
 theorem last_of_unsolved (s : EvalSt) (h : s.Unsolved) : s.last = Option.none := by
   unfold EvalSt.last; rw [h.1]; rfl
@@ -50,6 +51,69 @@ theorem unsolved_dual_raises (s : EvalSt) (hs : s.Unsolved) (h : Nat) :
     evalDual s h = .error .valueError := by
   unfold evalDual; rw [hs.2.2.2.1]; rfl
 
+theorem unsolved_psd_dual_raises (s : EvalSt) (hs : s.Unsolved) (h : Nat) :
+    evalPsdDual s h = .error .valueError := by
+  unfold evalPsdDual; rw [hs.2.2.2.2.2]; rfl
+
+/-- `mapM` in `Except` fails as soon as one element fails -/
+theorem mapM_error_of_mem {α β ε : Type} (f : α → Except ε β) (err : ε) :
+    ∀ (l : List α), (∃ a ∈ l, f a = .error err) → (∀ a ∈ l, ∀ e', f a = .error e' → e' = err) →
+      l.mapM f = .error err := by
+  intro l
+  induction l with
+  | nil => intro ⟨a, ha, _⟩; cases ha
+  | cons hd tl ih =>
+    intro hex hall
+    rw [List.mapM_cons]
+    cases hf : f hd with
+    | error e' =>
+      have := hall hd List.mem_cons_self e' hf
+      subst this; rfl
+    | ok b =>
+      obtain ⟨a, ha, hfa⟩ := hex
+      have hin : a ∈ tl := by
+        rcases List.mem_cons.mp ha with rfl | h
+        · rw [hf] at hfa; cases hfa
+        · exact h
+      have := ih ⟨a, hin, hfa⟩ (fun a' ha' => hall a' (List.mem_cons_of_mem _ ha'))
+      simp only [bind, Except.bind, this]
+
+/-- **matrices: `PSDMatrix.eval()` before any solve raises `ValueError` as soon as ANY entry — on, above
+or below the diagonal — mentions a leaf** (every entry is evaluated; nothing is inferred by symmetry) -/
+theorem unsolved_psd_raises (w : World) (s : EvalSt) (hs : s.Unsolved) (h : Nat) (m : PsdObj)
+    (hm : w.psds[h]? = some m) (row : List Nat) (hrow : row ∈ m.entries) (eh : Nat) (heh : eh ∈ row) (e : EObj)
+    (he : w.exs[eh]? = some e) (hl : MentionsLeaf e) :
+    evalPsd w s h = .error .valueError := by
+  unfold evalPsd
+  simp only [hm]
+  apply mapM_error_of_mem
+  · refine ⟨row, hrow, ?_⟩
+    apply mapM_error_of_mem
+    · exact ⟨eh, heh, by simp only [unsolved_expr_raises w s hs eh e he hl]⟩
+    · intro a _ e' h'
+      split at h'
+      · cases h'
+      · cases h'; rfl
+  · intro r _ e' h'
+    -- every failure of a row is a `ValueError`
+    have key : ∀ (l : List Nat) (e' : EvalErr),
+        l.mapM (fun eh => match evalExpr w s eh with | .ok (v, _) => Except.ok v | .error _ => .error EvalErr.valueError)
+          = .error e' → e' = .valueError := by
+      intro l
+      induction l with
+      | nil => intro e' h; simp [List.mapM_nil, pure, Except.pure] at h
+      | cons hd tl ih =>
+        intro e' h
+        rw [List.mapM_cons] at h
+        cases hev : evalExpr w s hd with
+        | error x => simp only [hev, bind, Except.bind] at h; cases h; rfl
+        | ok vs =>
+          simp only [hev, bind, Except.bind] at h
+          cases htl : tl.mapM (fun eh => match evalExpr w s eh with | .ok (v, _) => Except.ok v | .error _ => .error EvalErr.valueError) with
+          | error x => rw [htl] at h; cases h; exact ih _ htl
+          | ok y => rw [htl] at h; simp [pure, Except.pure] at h
+    exact key r e' h'
+
 /-- **a solve that reports no value assigns nothing**: in the flow model of `_solve_with_wrapper`
 (`Model/Solve`, compared with the real method by the flow stream) the failing path stops right after
 the solver call: no multiplier is recovered, no instance is stored, nothing is raised, `None` is returned -/
@@ -61,3 +125,4 @@ end Pepit
 
 #print axioms Pepit.unsolved_expr_raises
 #print axioms Pepit.unsolved_cons_raises
+#print axioms Pepit.unsolved_psd_raises
